@@ -24,7 +24,7 @@ def option_method(name):
     st = S()
 
     def f(I, a, fr, d):
-        o = deref(a[0]) if name in ("is_some", "is_none", "as_ref", "as_mut", "as_deref", "cloned", "copied", "take", "insert", "get_or_insert_with", "replace") else a[0]
+        o = deref(a[0]) if name in ("is_some", "is_none", "as_ref", "as_mut", "as_deref", "cloned", "copied", "take", "insert", "get_or_insert_with", "get_or_insert", "replace") else a[0]
         is_some = o.variant == "Some"
         val = o.cells[0].v if is_some else None
         if name == "is_some": return is_some
@@ -63,6 +63,24 @@ def option_method(name):
         if name == "replace":
             cell = a[0].cell
             v = cell.v; cell.v = st.some(I, a[1]); return v
+        if name == "is_some_and": return bool(is_some) and I.call_value(a[1], [val])
+        if name == "is_none_or": return (not is_some) or I.call_value(a[1], [val])
+        if name == "and": return a[1] if is_some else o
+        if name == "xor":
+            b = a[1]
+            if is_some and b.variant == "None": return o
+            if not is_some and b.variant == "Some": return b
+            return st.none(I)
+        if name == "inspect":
+            if is_some: I.call_value(a[1], [Ref(o.cells[0])])
+            return o
+        if name == "get_or_insert":
+            cell = a[0].cell
+            if not is_some: cell.v = st.some(I, a[1])
+            return Ref(cell.v.cells[0])
+        if name == "unzip":
+            if is_some: return Agg(None, [Cell(st.some(I, val.cells[0].v)), Cell(st.some(I, val.cells[1].v))])
+            return Agg(None, [Cell(st.none(I)), Cell(st.none(I))])
         if name == "unwrap_unchecked": return val
         if name == "iter" or name == "into_iter":
             return Iter("list", xs=[val] if is_some else [], i=0)
@@ -105,6 +123,22 @@ def result_method(name):
         if name in ("as_ref", "as_mut"):
             return EnumV(r.d, r.variant, [Cell(Ref(r.cells[0]))])
         if name == "map_or": return I.call_value(a[2], [val]) if is_ok else a[1]
+        if name == "map_or_else": return I.call_value(a[2], [val]) if is_ok else I.call_value(a[1], [val])
+        if name == "is_ok_and": return bool(is_ok) and I.call_value(a[1], [val])
+        if name == "is_err_and": return (not is_ok) and I.call_value(a[1], [val])
+        if name == "and": return a[1] if is_ok else r
+        if name == "or": return r if is_ok else a[1]
+        if name == "expect_err":
+            if is_ok: raise Panic(f"Result::expect_err on Ok in {fr.fn.crate}::{fr.fn.name}")
+            return val
+        if name in ("inspect", "inspect_err"):
+            if is_ok == (name == "inspect"): I.call_value(a[1], [Ref(r.cells[0])])
+            return r
+        if name in ("copied", "cloned"):
+            return st.ok(I, clone_val(deref(val))) if is_ok else r
+        if name in ("iter", "into_iter"):
+            return Iter("list", xs=[val] if is_ok else [], i=0)
+        if name == "unwrap_unchecked": return val
         return NotImplemented
     return f
 
@@ -146,15 +180,100 @@ def num_method(name, c):
             return mk_int(x.ty, z3.If(o, sat.z3(), r.z3()))
         if name in ("wrapping_add", "wrapping_sub", "wrapping_mul"):
             return int_binop({"wrapping_add": "Add", "wrapping_sub": "Sub", "wrapping_mul": "Mul"}[name], x, a[1])
-        if name in ("wrapping_div", "wrapping_rem", "wrapping_div_euclid", "wrapping_rem_euclid"):
+        if name in ("wrapping_div", "wrapping_rem", "wrapping_div_euclid", "wrapping_rem_euclid", "div_euclid", "rem_euclid",
+                    "checked_div_euclid", "checked_rem_euclid", "saturating_div", "overflowing_div", "overflowing_rem"):
             y = a[1]
+            checked = name.startswith("checked_")
             if not I.E.branch(b_not(int_binop("Eq", y, Int(y.ty, 0))), "divz"):
+                if checked: return st.none(I)
                 raise Panic(f"attempt to divide by zero ({name}) in {fr.fn.crate}::{fr.fn.name}")
+            isdiv = "div" in name
             if x.signed:
                 mn = Int(x.ty, 1 << (x.bits - 1))
                 if I.E.branch(b_and(int_binop("Eq", x, mn), int_binop("Eq", y, Int(y.ty, -1))), "minneg"):
-                    return mn if "div" in name else Int(x.ty, 0)
-            return int_binop("Div" if "div" in name else "Rem", x, y)
+                    if checked: return st.none(I)
+                    if name in ("div_euclid", "rem_euclid"):
+                        raise Panic(f"attempt to {'divide' if isdiv else 'calculate the remainder'} with overflow ({name}) in {fr.fn.crate}::{fr.fn.name}")
+                    if name == "saturating_div": return Int(x.ty, (1 << (x.bits - 1)) - 1)
+                    r_ = mn if isdiv else Int(x.ty, 0)
+                    return Agg(None, [Cell(r_), Cell(True)]) if name.startswith("overflowing") else r_
+            q, r = int_binop("Div", x, y), int_binop("Rem", x, y)
+            if "euclid" in name and x.signed:
+                zero = Int(x.ty, 0)
+                if I.E.branch(int_binop("Lt", r, zero), "euclid_neg"):
+                    ypos = I.E.branch(int_binop("Gt", y, zero), "euclid_ypos")
+                    r = int_binop("Add", r, y) if ypos else int_binop("Sub", r, y)
+                    q = int_binop("Sub", q, Int(x.ty, 1)) if ypos else int_binop("Add", q, Int(x.ty, 1))
+            out = q if isdiv else r
+            if checked: return st.some(I, out)
+            if name.startswith("overflowing"): return Agg(None, [Cell(out), Cell(False)])
+            return out
+        if name == "abs_diff":
+            uty = "u" + x.ty[1:] if x.signed else x.ty
+            lt = I.E.branch(int_binop("Lt", x, a[1]), "abs_diff")
+            dlt = int_binop("Sub", a[1], x) if lt else int_binop("Sub", x, a[1])
+            return Int(uty, dlt.v) if dlt.concrete else mk_int(uty, dlt.z3())
+        if name in ("signum", "is_negative", "is_positive"):
+            zero = Int(x.ty, 0)
+            if name == "is_negative": return int_binop("Lt", x, zero)
+            if name == "is_positive": return int_binop("Gt", x, zero)
+            if I.E.branch(int_binop("Gt", x, zero), "signum+"): return Int(x.ty, 1)
+            return Int(x.ty, -1) if I.E.branch(int_binop("Lt", x, zero), "signum-") else zero
+        if name in ("checked_shl", "checked_shr", "overflowing_shl", "overflowing_shr"):
+            y = a[1]
+            big = int_binop("Ge", y, Int(y.ty, x.bits))
+            r = int_binop("Shl" if name.endswith("shl") else "Shr", x, y)
+            if name.startswith("overflowing"): return Agg(None, [Cell(r), Cell(big)])
+            return st.none(I) if I.E.branch(big, name) else st.some(I, r)
+        if name == "clamp":
+            lo, hi = a[1], a[2]
+            if I.E.branch(int_binop("Gt", lo, hi), "clamp_args"): raise Panic(f"assertion failed: min <= max (clamp) in {fr.fn.crate}::{fr.fn.name}")
+            if I.E.branch(int_binop("Lt", x, lo), "clamp_lo"): return lo
+            return hi if I.E.branch(int_binop("Gt", x, hi), "clamp_hi") else x
+        if name in ("rotate_left", "rotate_right"):
+            n = a[1]
+            if x.concrete and n.concrete:
+                k = n.v % x.bits
+                if name == "rotate_right": k = (x.bits - k) % x.bits
+                return Int(x.ty, ((x.v << k) | (x.v >> (x.bits - k))) & ((1 << x.bits) - 1))
+            nn = n.z3()
+            nn = z3.Extract(x.bits - 1, 0, nn) if n.bits > x.bits else (z3.ZeroExt(x.bits - n.bits, nn) if n.bits < x.bits else nn)
+            return mk_int(x.ty, (z3.RotateLeft if name == "rotate_left" else z3.RotateRight)(x.z3(), nn))
+        if name in ("swap_bytes", "to_be", "from_be"):
+            bs = [z3.Extract(8 * i + 7, 8 * i, x.z3()) for i in range(x.bits // 8)]
+            r = z3.simplify(z3.Concat(*bs)) if len(bs) > 1 else x.z3()
+            return mk_int(x.ty, r)
+        if name in ("to_le", "from_le"): return x
+        if name in ("saturating_neg", "saturating_abs") and x.signed:
+            mn = Int(x.ty, 1 << (x.bits - 1))
+            if I.E.branch(int_binop("Eq", x, mn), name): return Int(x.ty, (1 << (x.bits - 1)) - 1)
+            neg = Int(x.ty, -x.v) if x.concrete else mk_int(x.ty, -x.v)
+            if name == "saturating_neg": return neg
+            return neg if I.E.branch(int_binop("Lt", x, Int(x.ty, 0)), "sabs") else x
+        if name in ("checked_pow", "pow", "wrapping_pow", "saturating_pow") and a[1].concrete and a[1].v <= 64:
+            acc = Int(x.ty, 1)
+            for _ in range(a[1].v):
+                r, o = int_overflow_op("Mul", acc, x)
+                if name != "wrapping_pow" and I.E.branch(o, "pow_ovf"):
+                    if name == "checked_pow": return st.none(I)
+                    if name == "saturating_pow": raise Unmodelled("saturating_pow overflow direction")
+                    raise Panic(f"attempt to multiply with overflow (pow) in {fr.fn.crate}::{fr.fn.name}")
+                acc = r
+            return st.some(I, acc) if name == "checked_pow" else acc
+        if name in ("checked_add_signed", "checked_sub_unsigned", "checked_add_unsigned", "checked_sub_signed",
+                    "wrapping_add_signed", "saturating_add_signed", "wrapping_add_unsigned", "wrapping_sub_unsigned"):
+            y = a[1]
+            W2 = x.bits + 2
+            ex = lambda v: (z3.SignExt(W2 - v.bits, v.z3()) if v.signed else z3.ZeroExt(W2 - v.bits, v.z3()))
+            wide = ex(x) + ex(y) if "add" in name else ex(x) - ex(y)
+            lo_ = -(1 << (x.bits - 1)) if x.signed else 0
+            hi_ = (1 << (x.bits - 1)) - 1 if x.signed else (1 << x.bits) - 1
+            inr = b_norm(z3.And(wide >= lo_, wide <= hi_))
+            res = mk_int(x.ty, z3.simplify(z3.Extract(x.bits - 1, 0, wide)))
+            if name.startswith("wrapping"): return res
+            if I.E.branch(inr, name): return st.some(I, res) if name.startswith("checked") else res
+            if name.startswith("checked"): return st.none(I)
+            return Int(x.ty, hi_) if I.E.branch(b_norm(wide > hi_), "sat_hi") else Int(x.ty, lo_)
         if name == "wrapping_neg":
             return Int(x.ty, -x.v) if x.concrete else mk_int(x.ty, -x.v)
         if name == "wrapping_abs":
@@ -222,6 +341,22 @@ def num_method(name, c):
         if name == "count_ones" and x.concrete: return Int("u32", bin(x.v).count("1"))
         if name == "leading_zeros" and x.concrete: return Int("u32", x.bits - x.v.bit_length())
         if name == "trailing_zeros" and x.concrete: return Int("u32", (x.v & -x.v).bit_length() - 1 if x.v else x.bits)
+        if name == "is_power_of_two":
+            xv = x.z3()
+            return b_norm(z3.And(xv != 0, (xv & (xv - 1)) == 0))
+        if name in ("count_ones", "count_zeros"):
+            tot = z3.BitVecVal(0, 32)
+            for i in range(x.bits): tot = tot + z3.ZeroExt(31, z3.Extract(i, i, x.z3()))
+            r = mk_int("u32", z3.simplify(tot))
+            return r if name == "count_ones" else int_binop("Sub", Int("u32", x.bits), r)
+        if name in ("leading_zeros", "trailing_zeros", "leading_ones", "trailing_ones"):
+            xv = x.z3() if name.endswith("zeros") else ~x.z3()
+            r = z3.BitVecVal(x.bits, 32)
+            rng = range(x.bits) if name.startswith("leading") else range(x.bits - 1, -1, -1)
+            for i in rng:      # the last assignment that applies wins: highest set bit (leading) / lowest set bit (trailing)
+                cnt = (x.bits - 1 - i) if name.startswith("leading") else i
+                r = z3.If(z3.Extract(i, i, xv) == 1, z3.BitVecVal(cnt, 32), r)
+            return mk_int("u32", z3.simplify(r))
         return NotImplemented
     return f
 
@@ -339,12 +474,36 @@ def vec_method(name, c):
             for cc in v.cells:
                 if I.E.branch(I.call_value(a[1], [Ref(cc)]), "retain"): keep.append(cc)
             v.cells[:] = keep; return unit()
-        if name == "drain" or name == "into_boxed_slice":
+        if name == "drain":
+            # eager: the range is removed now, the removed elements are yielded (a leaked Drain is not modelled)
+            r = range_bounds(I, a[1], len(v.cells), panic=f"Vec::drain: range out of bounds in {fr.fn.crate}::{fr.fn.name}")
+            out = [cc.v for cc in v.cells[r[0]:r[1]]]
+            del v.cells[r[0]:r[1]]
+            return Iter("list", xs=out, i=0)
+        if name == "split_off":
+            at = a[1].v if a[1].concrete else I.E.concretize(a[1], cap=len(v.cells) + 2, label="split_off")
+            if at > len(v.cells): raise Panic(f"Vec::split_off: at > len in {fr.fn.crate}::{fr.fn.name}")
+            tail = v.cells[at:]; del v.cells[at:]
+            return Seq(tail, "vec")
+        if name == "resize_with":
+            nn = I.E.concretize(a[1], cap=64, label="resize") if not a[1].concrete else a[1].v
+            if nn > 100000: raise Unmodelled(f"Vec::resize_with to {nn} elements (bound)")
+            if nn < len(v.cells): del v.cells[nn:]
+            else:
+                for _ in range(nn - len(v.cells)): v.cells.append(Cell(I.call_value(a[2], [])))
+            return unit()
+        if name == "extend_from_within":
+            r = range_bounds(I, a[1], len(v.cells), panic=f"Vec::extend_from_within: range out of bounds in {fr.fn.crate}::{fr.fn.name}")
+            v.cells.extend([Cell(clone_val(cc.v)) for cc in v.cells[r[0]:r[1]]]); return unit()
+        if name == "retain_mut":
+            keep = []
+            for cc in v.cells:
+                if I.E.branch(I.call_value(a[1], [Ref(cc)]), "retain"): keep.append(cc)
+            v.cells[:] = keep; return unit()
+        if name == "into_boxed_slice":
             raise Unmodelled("Vec::" + name)
-        if name in ("iter", "iter_mut", "first", "last", "get", "get_mut", "contains", "to_vec", "sort", "split_at",
-                    "copy_from_slice", "swap", "last_mut", "first_mut", "concat", "starts_with"):
-            return slice_method(name, c)(I, a, fr, d)
-        return NotImplemented
+        r = slice_method(name, c)(I, a, fr, d)
+        return r
     return f
 
 
@@ -439,6 +598,52 @@ def slice_method(name, c):
             o = st.as_slice(a[1])
             if len(o) > n: return False
             return st.val_eq(I, SliceRef(s.seq, s.lo, s.lo + len(o)), o)
+        if name == "ends_with":
+            o = st.as_slice(a[1])
+            if len(o) > n: return False
+            return st.val_eq(I, SliceRef(s.seq, s.hi - len(o), s.hi), o)
+        if name in ("strip_prefix", "strip_suffix"):
+            o = st.as_slice(a[1])
+            if len(o) > n: return st.none(I)
+            if name == "strip_prefix":
+                hit = st.val_eq(I, SliceRef(s.seq, s.lo, s.lo + len(o)), o); rest = SliceRef(s.seq, s.lo + len(o), s.hi)
+            else:
+                hit = st.val_eq(I, SliceRef(s.seq, s.hi - len(o), s.hi), o); rest = SliceRef(s.seq, s.lo, s.hi - len(o))
+            return st.some(I, rest) if I.E.branch(hit, name) else st.none(I)
+        if name in ("rotate_left", "rotate_right"):
+            k = a[1].v if a[1].concrete else I.E.concretize(a[1], cap=n + 2, label="rotate")
+            if k > n: raise Panic(f"slice::{name}: mid > len in {fr.fn.crate}::{fr.fn.name}")
+            vals = [cc.v for cc in s.cells()]
+            if name == "rotate_right": k = n - k
+            vals = vals[k:] + vals[:k]
+            for cc, v in zip(s.cells(), vals): cc.v = v
+            return unit()
+        if name == "fill_with":
+            for cc in s.cells(): cc.v = I.call_value(a[1], [])
+            return unit()
+        if name == "is_sorted":
+            cs = [cc.v for cc in s.cells()]
+            for x, y in zip(cs, cs[1:]):
+                if st.val_cmp(I, x, y) == "Greater": return False
+            return True
+        if name in ("binary_search", "binary_search_by_key", "binary_search_by"):
+            # linear scan with the result binary search gives on a sorted slice without duplicates of the probe
+            for i, cc in enumerate(s.cells()):
+                if name == "binary_search": o = st.val_cmp(I, cc.v, deref(a[1]))
+                elif name == "binary_search_by": o = I.call_value(a[1], [Ref(cc)]).variant
+                else: o = st.val_cmp(I, I.call_value(a[2], [Ref(cc)]), deref(a[1]))
+                if o == "Equal": return st.ok(I, usize(i))
+                if o == "Greater": return st.err(I, usize(i))
+            return st.err(I, usize(n))
+        if name == "repeat":
+            k = a[1].v if a[1].concrete else I.E.concretize(a[1], cap=64, label="repeat")
+            return Seq([Cell(clone_val(cc.v)) for _ in range(k) for cc in s.cells()], "vec")
+        if name in ("rchunks", "rchunks_exact"):
+            k = a[1].v
+            if k == 0: raise Panic("chunk size must be non-zero")
+            xs = [SliceRef(s.seq, max(s.hi - i - k, s.lo), s.hi - i) for i in range(0, n, k)]
+            if name != "rchunks": xs = [x for x in xs if len(x) == k]
+            return Iter("list", xs=xs, i=0)
         if name in ("chunks_exact", "chunks_exact_mut", "chunks"):
             k = a[1].v
             if k == 0: raise Panic("chunk size must be non-zero")
@@ -613,12 +818,38 @@ def sorted_items(I, m):
     return out
 
 
+def hash_order(I, items):
+    """iteration order of a HashMap / HashSet is unspecified: with two or more entries both the insertion order and its
+    reverse are explored (a result that depends on the order shows up as a path that violates the oracle)"""
+    if len(items) >= 2 and I.E.choose(2, "hash_order"): return items[::-1]
+    return items
+
+
+def sorted_keys(I, sv):
+    """items of a set; ascending for a BTreeSet (comparisons fork where symbolic), insertion order for a HashSet"""
+    if sv.kind != "btree": return hash_order(I, list(sv.items))
+    st = S()
+    out = []
+    for k in sv.items:
+        pos = len(out)
+        while pos > 0 and st.val_cmp(I, out[pos - 1], k) == "Greater": pos -= 1
+        out.insert(pos, k)
+    return out
+
+
 def map_method(head, name, plain):
     st = S()
     kind = "btree" if ("BTree" in head or "btree" in plain) else "hash"
 
     def f(I, a, fr, d):
         if name == "new" or name == "with_capacity": return MapV(kind)
+        if name == "and_modify":
+            m, k = a[0].payload
+            i = map_lookup(I, m, k)
+            if i is not None: I.call_value(a[1], [Ref(m.items[i][1])])
+            return a[0]
+        if name == "key" and isinstance(a[0], Opaque) and a[0].tag == "entry":
+            return Ref(Cell(a[0].payload[1]))
         if name in ("or_default", "or_insert", "or_insert_with"):
             ent = a[0]
             m, k = ent.payload
@@ -645,17 +876,43 @@ def map_method(head, name, plain):
         if name == "len": return usize(len(m.items))
         if name == "clear": m.items = []; return unit()
         if name in ("iter", "iter_mut"):
-            items = sorted_items(I, m) if m.kind == "btree" else m.items
+            items = sorted_items(I, m) if m.kind == "btree" else hash_order(I, list(m.items))
             return Iter("list", xs=[Agg(None, [Cell(Ref(Cell(k))), Cell(Ref(c))]) for k, c in items], i=0)
         if name == "keys":
-            items = sorted_items(I, m) if m.kind == "btree" else m.items
+            items = sorted_items(I, m) if m.kind == "btree" else hash_order(I, list(m.items))
             return Iter("list", xs=[Ref(Cell(k)) for k, c in items], i=0)
         if name in ("values", "values_mut"):
-            items = sorted_items(I, m) if m.kind == "btree" else m.items
+            items = sorted_items(I, m) if m.kind == "btree" else hash_order(I, list(m.items))
             return Iter("list", xs=[Ref(c) for k, c in items], i=0)
         if name in ("into_values",):
-            items = sorted_items(I, m) if m.kind == "btree" else m.items
+            items = sorted_items(I, m) if m.kind == "btree" else hash_order(I, list(m.items))
             return Iter("list", xs=[c.v for k, c in items], i=0)
+        if name == "into_keys":
+            items = sorted_items(I, m) if m.kind == "btree" else hash_order(I, list(m.items))
+            return Iter("list", xs=[k for k, c in items], i=0)
+        if name in ("first_key_value", "last_key_value", "pop_first", "pop_last") and m.kind == "btree":
+            items = sorted_items(I, m)
+            if not items: return st.none(I)
+            k, c = items[0] if "first" in name else items[-1]
+            if name.startswith("pop"):
+                m.items = [(kk, cc) for kk, cc in m.items if cc is not c]
+                return st.some(I, Agg(None, [Cell(k), Cell(c.v)]))
+            return st.some(I, Agg(None, [Cell(Ref(Cell(k))), Cell(Ref(c))]))
+        if name == "get_key_value":
+            i = map_lookup(I, m, deref(a[1]))
+            return st.none(I) if i is None else st.some(I, Agg(None, [Cell(Ref(Cell(m.items[i][0]))), Cell(Ref(m.items[i][1]))]))
+        if name == "remove_entry":
+            i = map_lookup(I, m, deref(a[1]))
+            if i is None: return st.none(I)
+            k, c = m.items.pop(i)
+            return st.some(I, Agg(None, [Cell(k), Cell(c.v)]))
+        if name == "retain":
+            keep = []
+            for k, c in (sorted_items(I, m) if m.kind == "btree" else m.items):
+                if I.E.branch(I.call_value(a[1], [Ref(Cell(k)), Ref(c)]), "retain"): keep.append((k, c))
+            m.items = keep; return unit()
+        if name == "and_modify":
+            pass
         return NotImplemented
     return f
 
@@ -680,7 +937,48 @@ def set_method(head, name):
                     s.items.pop(i); return True
             return False
         if name == "iter":
-            return Iter("list", xs=[Ref(Cell(k)) for k in s.items], i=0)
+            return Iter("list", xs=[Ref(Cell(k)) for k in sorted_keys(I, s)], i=0)
+        if name == "get":
+            k = deref(a[1])
+            for kk in s.items:
+                if I.E.branch(key_eq(I, kk, k), "setkey"): return st.some(I, Ref(Cell(kk)))
+            return st.none(I)
+        if name == "take":
+            k = deref(a[1])
+            for i, kk in enumerate(s.items):
+                if I.E.branch(key_eq(I, kk, k), "setkey"): return st.some(I, s.items.pop(i))
+            return st.none(I)
+        if name in ("first", "last", "pop_first", "pop_last") and s.kind == "btree":
+            ks = sorted_keys(I, s)
+            if not ks: return st.none(I)
+            k = ks[0] if "first" in name else ks[-1]
+            if name.startswith("pop"):
+                s.items = [x for x in s.items if x is not k]
+                return st.some(I, k)
+            return st.some(I, Ref(Cell(k)))
+        if name in ("is_subset", "is_superset", "is_disjoint"):
+            o = deref(a[1])
+            x, y = (s, o) if name != "is_superset" else (o, s)
+            for k in x.items:
+                hit = set_contains(I, y, k)
+                hit = hit if isinstance(hit, bool) else I.E.branch(hit, name)
+                if name == "is_disjoint" and hit: return False
+                if name != "is_disjoint" and not hit: return False
+            return True
+        if name in ("union", "intersection", "difference", "symmetric_difference"):
+            o = deref(a[1])
+            def has(sv, k):
+                h = set_contains(I, sv, k)
+                return h if isinstance(h, bool) else I.E.branch(h, name)
+            if name == "union": out = list(s.items) + [k for k in o.items if not has(s, k)]
+            elif name == "intersection": out = [k for k in s.items if has(o, k)]
+            elif name == "difference": out = [k for k in s.items if not has(o, k)]
+            else: out = [k for k in s.items if not has(o, k)] + [k for k in o.items if not has(s, k)]
+            tmp = SetV(s.kind); tmp.items = out
+            return Iter("list", xs=[Ref(Cell(k)) for k in sorted_keys(I, tmp)], i=0)
+        if name == "retain":
+            s.items = [k for k in sorted_keys(I, s) if I.E.branch(I.call_value(a[1], [Ref(Cell(k))]), "retain")]
+            return unit()
         return NotImplemented
     return f
 
